@@ -176,27 +176,47 @@ def s4_schedule(ctx):
 
 
 def s5_outputs(ctx):
-    # equity point
-    qn = 'BacktestTradingSession._update_equity_curve'
-    ps = summarise(ctx, qn, policy=no_inline)
-    for p in ps:
-        ws = [w for w in heap_writes(p, 'equity_curve')]
-        eq = ('sub', ('call', ('fn', 'SimulatedBroker.get_account_total_equity'), (A('self', 'broker'),), ()), ('str', 'master'))
-        ok = p.outcome == 'fall' and len(ws) == 1 and ws[0].how == 'mut:append' and ws[0].value[2][1:] == (('tuple', (V('dt'), eq)),)
-        if not ok and p.outcome == 'fall' and len(ws) == 1 and ws[0].how == 'mut:append' and len(ws[0].value[2]) == 2:
-            # a named tuple (Date, Equity) is that pair
-            from ..symex import _seq_items
-            items = _seq_items(ws[0].value[2][1])
-            ok = items is not None and tuple(items) == (V('dt'), eq)
-        ctx.require(ok, 'C14.S5', 'an equity point is (dt, account total equity), appended once', ws[0].site if ws else ctx.fn(qn).site(), [fmt(w.value)[:120] for w in ws],
-                    key='C14.S5|equity-point')
-    for w in writers_of_attr(ctx.M, 'equity_curve', owner='BacktestTradingSession'):
-        ok = w.fn.qn in ('BacktestTradingSession.__init__', qn)
-        ctx.require(ok, 'C14.S5', 'the equity curve is written only by the per-close sampler (%s)' % w.fn.qn, w.where, key='C14.S5|equity-writer|%s' % w.fn.qn)
+    # equity point: whatever the run's private steps are called, every write of the equity curve in the event loop appends (the event's time, account total equity)
+    def session_steps(caller, callee, depth):
+        return depth <= 5 and callee.cls is not None and callee.cls.name in ('BacktestTradingSession', 'TradingSession') and callee.name.startswith('_') \
+            and not callee.name.startswith('__') and callee.name != '_is_rebalance_event'
+    eq = ('sub', ('call', ('fn', 'SimulatedBroker.get_account_total_equity'), (A('self', 'broker'),), ()), ('str', 'master'))
+    from ..symex import _seq_items, Undecided
+    seen_eq = 0
+    try:
+        rps = normal(summarise(ctx, RUN, policy=session_steps))
+    except Undecided as u:
+        rps = []
+        ctx.undecided('C14.S5', 'an equity point is (dt, account total equity), appended once', ctx.fn(RUN).site(), str(u)[:160])
+    for p in rps:
+        for e, loops, conds in nested_events(p):
+            if e.kind != 'write' or e.d.get('local') or loc_attr(e.loc) != 'equity_curve' or not loops:
+                continue
+            seen_eq += 1
+            what = 'an equity point is (dt, account total equity), appended once'
+            if e.how != 'mut:append' or e.value is None or len(e.value[2]) != 2:
+                ctx.undecided('C14.S5', what, e.site, 'the curve is written by %s: %s' % (e.how, fmt(e.value)[:100] if e.value else None))
+                continue
+            item = e.value[2][1]
+            items = _seq_items(item) if item[0] != 'tuple' else list(item[1])
+            ts = ('attr', ('elem', loops[0][0].iter, loops[0][0].id), 'ts')
+            if items is None or len(items) != 2:
+                ctx.undecided('C14.S5', what, e.site, 'appends %s' % fmt(item)[:120])
+                continue
+            unread = [s_ for s_ in T.subterms(items[1]) if s_[0] in ('havoc', 'lambda', 'lc') or (s_[0] == 'call' and s_[1] == ('ext', 'APPLY'))]
+            if items[0] == ts and items[1] == eq:
+                ctx.holds('C14.S5', what, e.site)
+            elif unread:
+                ctx.undecided('C14.S5', what, e.site, 'appends %s' % fmt(item)[:120])
+            else:
+                ctx.violation('C14.S5', what, e.site, 'appends %s' % fmt(item)[:160], key='C14.S5|equity-point')
+    if not seen_eq and rps:
+        ctx.undecided('C14.S5', 'an equity point is (dt, account total equity), appended once', ctx.fn(RUN).site(), 'no write of equity_curve was read in the event loop')
     from ..lib import private_closure
     run_steps = private_closure(ctx.M, {RUN})
-    for fn, n in calls_named(ctx.M, '_update_equity_curve'):
-        ctx.require(fn.qn in run_steps, 'C14.S5', 'the equity sampler is called only from the event loop', fn.site(n), key='C14.S5|equity-caller|%s' % fn.qn)
+    for w in writers_of_attr(ctx.M, 'equity_curve', owner='BacktestTradingSession'):
+        ok = w.fn.qn == 'BacktestTradingSession.__init__' or w.fn.qn in run_steps
+        ctx.require(ok, 'C14.S5', 'the equity curve is written only by the event loop and its private steps (%s)' % w.fn.qn, w.where, key='C14.S5|equity-writer|%s' % w.fn.qn)
     # allocation table
     qn = 'BacktestTradingSession.get_target_allocations'
     fn = ctx.fn(qn)
